@@ -92,10 +92,41 @@ func c12Long(rng *rand.Rand) *c12Case {
 	return c
 }
 
+// c12Tall: a file of several hundred lines with few selected lines far apart, and context / max values of the same
+// order: the options the user gave reach far beyond what the reader has buffered when a selected line is seen.
+func c12Tall(rng *rand.Rand) *c12Case {
+	pieces := c12Pieces()
+	p := pieces[rng.Intn(43)] // the literal pieces
+	c := &c12Case{Pattern: p.re, Danger: []string{"tall-file"}}
+	n := 400 + rng.Intn(500)
+	hits := map[int]bool{3 + rng.Intn(20): true, n/2 + rng.Intn(40): true, n - 1 - rng.Intn(30): true}
+	for i := 0; i < n; i++ {
+		if hits[i] {
+			c.Lines = append(c.Lines, fmt.Sprintf("row %04d <%s> selected", i, p.sample))
+		} else {
+			c.Lines = append(c.Lines, fmt.Sprintf("row %04d nothing here", i))
+		}
+	}
+	c.FinalNL = true
+	v := func() int { return []int{0, 120, 150, 300, 1000000}[rng.Intn(5)] }
+	c.B, c.A, c.M = []int{0, 0, 2, 130}[rng.Intn(4)], v(), []int{0, 1, 1, 2}[rng.Intn(4)]
+	c.Plain = rng.Intn(3) != 0
+	c.SSH = rng.Intn(3) == 0
+	if _, err := regexp.Compile(c.Pattern); err != nil {
+		return nil
+	}
+	return c
+}
+
 func c12Gen(rng *rand.Rand) *c12Case {
 	pieces := c12Pieces()
 	if rng.Intn(60) == 7 {
 		return c12Long(rng)
+	}
+	if rng.Intn(60) == 9 {
+		if c := c12Tall(rng); c != nil {
+			return c
+		}
 	}
 	for {
 		c := &c12Case{}
